@@ -162,7 +162,11 @@ def run(check: Check) -> None:
     decided = py_roundtrip(check)
     constructor_fidelity(check)  # R1-sem: what the constructors called by the representation store is what they are given
     if decided:
-        check.notes.append("PY-sem decided every model engine under every alias setting: the table rules R1, R2, R5, R6, R8, R9, R12 (its fallback) were not needed")
+        # the representations the model engines never print (the fuzzy value of an output, an activated term, the settings) stay with the table rules R1 / R2
+        done = getattr(check, "repr_interpreted", set())
+        constructor_fields(check, skip=done)
+        check.notes.append("PY-sem decided every model engine under every alias setting: the table rules R1, R2 (for the classes whose representation it interpreted), "
+                           "R5, R6, R8, R9, R12 - its fallback - were not needed")
     else:
         constructor_fields(check)
         enum_reprs(check)
@@ -190,9 +194,10 @@ def run(check: Check) -> None:
 
 
 # ------------------------------------------------------------------------------------------------ R1 / R2 / T10
-def constructor_fields(check: Check) -> None:
+def constructor_fields(check: Check, skip: set[str] = frozenset()) -> None:
     p = check.program
     classes = [c for c in p.classes.values() if c.lookup("__repr__") is not None and c.lookup("__init__") is not None and not c.is_enum]
+    classes = [c for c in classes if c.qualname not in skip]
     classes.sort(key=lambda c: (c.file, c.node.lineno))
     for c in classes:
         if c.is_abstract:
